@@ -10,7 +10,8 @@ from ..index import dotted, walk_local
 EXPLANATION = ("C13: in every parser generator a consuming `del buf[:K]` is reached only after the completeness test for "
                "that extent on the same path; parseLine/parseLeader choose the cut by comparing positions of all admitted "
                "terminators (first listed wins ties) and handle a terminator that is a proper prefix of another at the "
-               "end of the buffer; Parsent.makeParser closes the old generator before replacing it.")
+               "end of the buffer; size limits that raise are applied to the buffer length only while no terminator was found, and to "
+               "the found position afterwards; Parsent.makeParser closes the old generator before replacing it.")
 ASSUMPTIONS = ["equality of parse results over all partitions is not decided; only the two structural preconditions",
                "the buffer is only appended to between resumptions (tcp receive discipline, C09)"]
 
@@ -61,6 +62,12 @@ def check(run):
     total = sum(len(v) for v in sites.values())
     run.ob("C13.R2", "%s:terminator-call-sites-evaluated" % HT, total >= 8, "", "" if total >= 8 else "only %d call sites of parseLine/parseLeader found" % total)
     run.floor("C13.R2", 16)
+    # R5 limits are applied to the token, not to the rest of the buffer
+    for name in ("parseLine", "parseLeader"):
+        f = ix.func(HT, name)
+        for k, ok, site, what in hp.limit_facts(run, f, {"raw"}):
+            run.ob("C13.R5", "%s:%s" % (f.fq, k), ok, site, what)
+    run.floor("C13.R5", 2)
     # R3 makeParser closes the old generator
     mp = ix.func(HT, "Parsent.makeParser")
     store = [n for n in walk_local(mp.node) if isinstance(n, ast.Assign) and dotted(n.targets[0]) == "self.parser"]
@@ -73,6 +80,8 @@ def check(run):
 
 
 MUTANTS = [
+    Mutant("found-limit-on-buffer-length", HT, "parseLeader", "        if index > MAX_LINE_SIZE:  # found but line too long", "        if len(raw) > MAX_LINE_SIZE:  # found but line too long", {"C13.R5"}, canary=True),
+    Mutant("found-limit-on-buffer-length-line", HT, "parseLine", "        if index > MAX_LINE_SIZE:  # found but line too long", "        if len(raw) > MAX_LINE_SIZE:  # found but line too long", {"C13.R5"}),
     Mutant("parseline-consume-before-test", HT, "parseLine", "        if index < 0:  # not found\n            if len(raw) > MAX_LINE_SIZE:", "        del raw[:index]\n        if index < 0:  # not found\n            if len(raw) > MAX_LINE_SIZE:", {"C13.R1"}, canary=True),
     Mutant("parsechunk-no-length-wait", HT, "parseChunk", "        while len(raw) < size:  # need more for chunk\n            (yield None)\n", "", {"C13.R1"}, canary=True),
     Mutant("parsebody-if-not-while", HS, "Requestant.parseBody", "            while len(self.msg) < self.length:", "            if len(self.msg) < self.length:", {"C13.R1"}),
